@@ -206,6 +206,12 @@ func (c *coordinator) finish(xid string, bs []reg, commit bool) {
 		}
 		for i := len(bs) - 1; i >= 0; i-- {
 			c.deliver(xid, bs[i], false)
+			if bs[i].bt == branch.BranchTypeAT && bs[i].bid%4 == 0 {
+				// the coordinator did not see the answer and asks again, twice: the first repetition finds the undo
+				// log gone and leaves the marker, the second finds the marker - both are answered, nothing is kept
+				c.deliver(xid, bs[i], false)
+				c.deliver(xid, bs[i], false)
+			}
 		}
 		c.tc.ReleaseLocks(xid)
 	}()
